@@ -811,6 +811,25 @@ func (R *Run) compareLayout(rule, construct, pos string, alts [][]Seg, want []sp
 			}
 		}
 		nApplicable++
+		if len(got) > len(flat) {
+			// constant bytes emitted one by one (`append(b, 0, 1)`) where the protocol names one constant: adjacent
+			// constants are joined up to the width the protocol gives at that position
+			var joined []Seg
+			j := 0
+			for _, g := range got {
+				k := len(joined)
+				if g.Kind == "const" && k > 0 && joined[k-1].Kind == "const" && k-1 < len(flat) && j == k-1 {
+					if w := flat[k-1].s; joined[k-1].W+g.W <= w.W {
+						joined[k-1].W += g.W
+						joined[k-1].Bytes = append(append([]byte{}, joined[k-1].Bytes...), g.Bytes...)
+						continue
+					}
+				}
+				joined = append(joined, g)
+				j = len(joined) - 1
+			}
+			got = joined
+		}
 		if len(got) != len(flat) {
 			if firstWhy == "" {
 				firstWhy = fmt.Sprintf("code emits %d segments %v, protocol layout has %d", len(got), got, len(flat))
@@ -905,10 +924,28 @@ func checkLayoutsFiltered(R *Run, only func(typ string) bool) {
 		for _, ci := range callsIn(fn) {
 			if c, ok := ci.(*ssa.Call); ok && calleeName(&c.Call) == "builtin.copy" && c.Call.Args[0] == ssa.Value(fn.Params[1]) {
 				emit = c
-				if sl, ok := c.Call.Args[1].(*ssa.Slice); ok {
+				src := c.Call.Args[1]
+				// (the remainder chosen between nil — nothing left — and buf[cursor:]: the cursor rule vouches for the shape)
+				if phi, isPhi := src.(*ssa.Phi); isPhi {
+					var only ssa.Value
+					for _, e := range phi.Edges {
+						if isNilConst(e) {
+							continue
+						}
+						if only != nil && only != e {
+							only = nil
+							break
+						}
+						only = e
+					}
+					if only != nil {
+						src = only
+					}
+				}
+				if sl, ok := src.(*ssa.Slice); ok {
 					buf = sl.X
 				} else {
-					buf = c.Call.Args[1]
+					buf = src
 				}
 			}
 		}
